@@ -216,8 +216,8 @@ def gen_case(fl, obs, rng):
 
 
 def directed_cases(fl, obs):
-    """Small fixed outputs: a monotonic term of every class with degree exactly 0 next to Ramp(0,1) at 0.5 (finding F4 when
-    z(0) is infinite), the same for the other kinds, empty and all-zero outputs."""
+    """Small fixed outputs: a monotonic term of every class with degree exactly 0 next to Ramp(0,1) at 0.5 (finding F4, now
+    repaired: NaN when z(0) is infinite — Sigmoid, Concave), the same for the other kinds, empty and all-zero outputs."""
     out = []
     P = {"Ramp": {"start": 2.0, "end": 4.0, "height": 1.0}, "Sigmoid": {"inflection": 0.5, "slope": 10.0, "height": 1.0},
          "Concave": {"inflection": 0.0, "end": 1.0, "height": 1.0}, "SShape": {"start": 0.0, "end": 1.0, "height": 1.0},
@@ -633,9 +633,16 @@ def run(ctx, build, verdict, ev):
     c["oracle_stats"] = stats
     c["correspondence_mismatches"] = len(mism)
     c["oracle_violations"] = nviol
+    sigs: dict[str, int] = {}
+    for v in verdict.violations:
+        sigs[v["signature"]] = sigs.get(v["signature"], 0) + 1
+    c["violation_signatures"] = sigs
+    c["known_finding_hits"] = dict(verdict.known_hits)
     c["samples"] = samples[:6]
-    c["refuted_statements"] = ["zero_degree_neutral_statement (an activation of degree 0 never changes the result): refuted on the faithful model, "
-                               "C10_zero_degree_neutral_refuted; true when z(0) is finite (C10_zero_degree_neutral_new) or the name already occurs (C10_zero_degree_neutral_existing)"]
+    c["finding_F4"] = ("repaired in /repo (fix: weighted defuzzifiers returned nan when an activation had degree zero and an infinite value); the model's loop has the "
+                       "same guard (wcontrib) and C10_zero_degree_neutral / C10_zero_degree_neutral_new hold without a finiteness hypothesis; the unguarded loop is refuted in "
+                       "C10_zero_degree_neutral_unguarded_refuted; the oracle signature weighted:zero-degree-times-infinite-z stays active (directed Sigmoid/Concave outputs with a "
+                       "zero-degree activation are run on every check)")
     ev["assumptions"] += ["R / ER theorems ignore rounding; the binary64 reading is tied to the implementation by the bit-exact correspondence only",
                           "values of Linear / Function terms are taken from the implementation (table name -> value); exp / log / libm pow results from an observer clone of term.py",
                           "the mixture of kinds under Automatic raises TypeError (modelled as Err EInternal); the oracle does not judge it",
